@@ -22,6 +22,27 @@ def routed_classes(prog, visitor_cls):
     return routes, regs
 
 
+def _guards(node):
+    """Branches (if/while/for/try bodies, handlers) enclosing ``node`` inside its function."""
+    out = set()
+    cur = node
+    while getattr(cur, "_parent", None) is not None and not isinstance(cur, (ast.FunctionDef, ast.AsyncFunctionDef, ast.Lambda)):
+        par = cur._parent
+        if isinstance(par, (ast.If, ast.While, ast.For, ast.IfExp, ast.Try, ast.ExceptHandler)) and cur is not getattr(par, "test", None) \
+                and cur is not getattr(par, "iter", None):
+            branch = "body"
+            if isinstance(par, ast.IfExp):
+                branch = "body" if cur is par.body else "orelse"
+            elif cur in getattr(par, "orelse", []):
+                branch = "orelse"
+            elif cur in getattr(par, "finalbody", []):
+                branch = "finally"
+            if not (isinstance(par, ast.Try) and branch in ("body", "finally")):
+                out.add((id(par), branch))
+        cur = par
+    return out
+
+
 def traversals(fi, param):
     """List of (slot, line, assigned_back, expr) for visits of ``param.slot``:
     calls of self._visit_* / map_and_filter(self._visit_*, param.slot) in fi."""
@@ -49,10 +70,16 @@ def traversals(fi, param):
         while getattr(st, "_parent", None) is not None and not isinstance(st, ast.stmt):
             st = st._parent
         back = False
-        if isinstance(st, ast.Assign) and len(st.targets) == 1:
-            t = st.targets[0]
-            if isinstance(t, ast.Attribute) and isinstance(t.value, ast.Name) and t.value.id == param and t.attr == slot:
-                back = True
+        # written back: some assignment to param.slot receives (directly or through locals) the value of this very call
+        for a in own_nodes(fi.node):
+            if isinstance(a, ast.Assign) and len(a.targets) == 1:
+                t = a.targets[0]
+                if isinstance(t, ast.Attribute) and isinstance(t.value, ast.Name) and t.value.id == param and t.attr == slot:
+                    v = cn.expr(a.value)
+                    if any(isinstance(x, ast.Call) and (getattr(x, "lineno", None), getattr(x, "col_offset", None)) == (n.lineno, n.col_offset)
+                           for x in ast.walk(v)) and _guards(a) <= _guards(n):
+                        # (and under no more conditions than the traversal itself: a conditional write-back loses edits)
+                        back = True
         out.append((slot, n.lineno, back, n))
     # de-duplicate nested hits on the same statement/slot
     seen, res = set(), []
@@ -336,8 +363,31 @@ def check(prog, run):
                     ok = True
     r.instance("map_and_filter body `%s`" % norm_stmt(rets[0]) if rets else "no return")
     if not ok:
+        # semantic description of the pipeline, whatever its spelling (loop with append, helper, map/filter builtins)
+        from .. import listpipe
+        term = listpipe.describe_function(prog, maf)
+        want = ("notnone", ("map", ("param", maf.params[0]), ("it", maf.params[1])))
+        r.instance("map_and_filter computes %r" % (term,))
+        if term == want:
+            ok = True
+        elif term is not None:
+            run.report(r, "%s:map_and_filter:shape" % maf.module.name, maf.where(),
+                       "map_and_filter computes %r, not the order-preserving map that drops exactly the None results %r" % (term, want))
+            ok = True
+    if not ok:
         # fall back to an abstract check: no sorted/reversed/set, filter is `is not None`
-        txt = ast.unparse(maf.node)
+        fns, todo = [maf], [maf]
+        while todo:
+            cur = todo.pop()
+            for c in own_nodes(cur.node):
+                if isinstance(c, ast.Call):
+                    for callee in prog.resolve_call(cur, c):
+                        if callee.module is maf.module and callee not in fns and len(fns) < 4:
+                            fns.append(callee)
+                            todo.append(callee)
+        for g in fns:
+            run.looked_at(g)
+        txt = "\n".join(ast.unparse(g.node) for g in fns)
         bad = [w for w in ("sorted(", "reversed(", "set(", "[::-1]") if w in txt]
         if bad or "is not None" not in txt:
             run.report(r, "%s:map_and_filter:shape" % maf.module.name, maf.where(),
